@@ -462,20 +462,24 @@ func terminationOf(i *value.VmInterrupt) bool {
     requires self.parent != nil && self.Program != nil && self.CancelCtx != nil && *self.CancelCtx != nil
     requires debuggerOut == nil && debuggerResume == nil
     requires disjoint(self.CallStack, self.ExceptionCatchLabels) && disjoint(self.Stack, self.Memory) && self.Limits.MaxMemorySize < 1<<62
-    requires tryLens(*self)
+    requires tryLens(*self) && ghost(sincePoll) >= 0
     requires self.Limits.StackMaxSize < 1<<62 && self.Limits.CallStackMaxSize < 1<<62
     ensures @one-signal sentcount(self.SignalHandle) == old(sentcount(self.SignalHandle))+1
+    ensures @counts-instructions ghost(sincePoll) >= 0
     loop 1 invariant @signal-pending sentcount(self.SignalHandle) == old(sentcount(self.SignalHandle))
     loop 1 invariant @try-wf tryLens(*self)
+    loop 1 invariant @counter-nonnegative ghost(sincePoll) >= 0
     loop 1 invariant @state self.parent == old(self.parent) && self.parent != nil && self.Program != nil && self.CancelCtx != nil && *self.CancelCtx != nil
     loop 2 invariant @signal-pending sentcount(self.SignalHandle) == old(sentcount(self.SignalHandle))
     loop 2 invariant @try-wf tryLens(*self)
+    loop 2 invariant @counter-nonnegative ghost(sincePoll) >= 0
     loop 2 invariant @state self.parent == old(self.parent) && self.parent != nil && self.Program != nil && self.CancelCtx != nil && *self.CancelCtx != nil
     loop 2 invariant @quantum-within-limits c == 0 ==> len(self.Stack) <= int(self.Limits.StackMaxSize) && len(self.CallStack) <= int(self.Limits.CallStackMaxSize)
     loop 2 invariant @polled ghost(sincePoll) <= c
     loop 2 invariant @quantum 0 <= c && c <= NUM_INSTRUCTIONS_EXECUTE_PER_VCYCLE
     loop 2 decreases NUM_INSTRUCTIONS_EXECUTE_PER_VCYCLE - c
     loop 6 invariant @try-wf tryLens(*self)
+    loop 6 invariant @counter-nonnegative ghost(sincePoll) >= 0
     loop 6 invariant @signal-pending sentcount(self.SignalHandle) == old(sentcount(self.SignalHandle))
     loop 6 invariant @state self.parent == old(self.parent) && self.parent != nil && self.Program != nil && self.CancelCtx != nil && *self.CancelCtx != nil
     loop 6 invariant @frames len(self.CallStack) == entry(len(self.CallStack)) && sameslice(self.CallStack, entry(self.CallStack)) && sameslice(self.Stack, entry(self.Stack))
